@@ -19,12 +19,14 @@ type entry struct {
 	ro   bool // the connection was requested with the ReplicaOnly option
 	call int  // number of this connection call among those carrying user commands (0: none)
 	dead bool // the connection had been closed by the client when the call was made
+	conn int  // identity of the fake connection (one per connFn call)
 }
 
 type world struct {
 	mu      sync.Mutex
 	log     []entry
 	calls   int
+	conns   int
 	respond func(addr string, e *entry, i int, ctx context.Context) rueidis.RedisResult
 	dial    func(addr string) error
 	nodeErr func(addr string) error
@@ -40,7 +42,7 @@ func newWorld() *world { return &world{closed: map[string]int{}} }
 
 func (w *world) record(e entry) *entry {
 	w.mu.Lock()
-	keep := entry{addr: e.addr, kind: e.kind, ro: e.ro, dead: e.dead}
+	keep := entry{addr: e.addr, kind: e.kind, ro: e.ro, dead: e.dead, conn: e.conn}
 	for _, c := range e.cmds {
 		if w.quiet != nil && w.quiet(c) {
 			continue
@@ -75,6 +77,7 @@ type fnode struct {
 	addr   string
 	ro     bool
 	closed bool
+	id     int
 }
 
 var errFakeClosed = errors.New("verif: fake connection is closed")
@@ -87,7 +90,11 @@ func (n *fnode) isClosed() bool {
 
 func (w *world) nodeFn() rueidis.VerifRoutingNodeFn {
 	return func(addr string, replicaOpt bool) rueidis.VerifRoutingNode {
-		return &fnode{w: w, addr: addr, ro: replicaOpt}
+		w.mu.Lock()
+		w.conns++
+		id := w.conns
+		w.mu.Unlock()
+		return &fnode{w: w, addr: addr, ro: replicaOpt, id: id}
 	}
 }
 
@@ -112,7 +119,7 @@ func (n *fnode) Dial() error {
 }
 
 func (n *fnode) Do(ctx context.Context, cmd rueidis.Completed) rueidis.RedisResult {
-	e := n.w.record(entry{addr: n.addr, dead: n.isClosed(), kind: "do", cmds: [][]string{argv(cmd)}, ro: n.ro})
+	e := n.w.record(entry{addr: n.addr, conn: n.id, dead: n.isClosed(), kind: "do", cmds: [][]string{argv(cmd)}, ro: n.ro})
 	return n.answer(e, 0, ctx)
 }
 
@@ -121,7 +128,7 @@ func (n *fnode) DoMulti(ctx context.Context, multi ...rueidis.Completed) []rueid
 	for i, c := range multi {
 		cs[i] = argv(c)
 	}
-	e := n.w.record(entry{addr: n.addr, dead: n.isClosed(), kind: "multi", cmds: cs, ro: n.ro})
+	e := n.w.record(entry{addr: n.addr, conn: n.id, dead: n.isClosed(), kind: "multi", cmds: cs, ro: n.ro})
 	out := make([]rueidis.RedisResult, len(multi))
 	for i := range multi {
 		out[i] = n.answer(e, i, ctx)
@@ -130,7 +137,7 @@ func (n *fnode) DoMulti(ctx context.Context, multi ...rueidis.Completed) []rueid
 }
 
 func (n *fnode) DoCache(ctx context.Context, cmd rueidis.Cacheable, ttl time.Duration) rueidis.RedisResult {
-	e := n.w.record(entry{addr: n.addr, dead: n.isClosed(), kind: "cache", cmds: [][]string{argv(rueidis.Completed(cmd))}, ro: n.ro})
+	e := n.w.record(entry{addr: n.addr, conn: n.id, dead: n.isClosed(), kind: "cache", cmds: [][]string{argv(rueidis.Completed(cmd))}, ro: n.ro})
 	return n.answer(e, 0, ctx)
 }
 
@@ -139,7 +146,7 @@ func (n *fnode) DoMultiCache(ctx context.Context, multi ...rueidis.CacheableTTL)
 	for i, c := range multi {
 		cs[i] = argv(rueidis.Completed(c.Cmd))
 	}
-	e := n.w.record(entry{addr: n.addr, dead: n.isClosed(), kind: "mcache", cmds: cs, ro: n.ro})
+	e := n.w.record(entry{addr: n.addr, conn: n.id, dead: n.isClosed(), kind: "mcache", cmds: cs, ro: n.ro})
 	out := make([]rueidis.RedisResult, len(multi))
 	for i := range multi {
 		out[i] = n.answer(e, i, ctx)
